@@ -44,6 +44,8 @@ type sched struct {
 	EOFWithData bool   `json:"eof_with_data"`
 }
 
+var corruptReader = os.Getenv("VERIF_C07_CORRUPT") == "1"
+
 type schedReader struct {
 	data   []byte
 	chunks []int
@@ -86,6 +88,9 @@ func (r *schedReader) Read(p []byte) (int, error) {
 		r.i++
 	}
 	copy(p, r.data[:n])
+	if corruptReader && r.reads == 2 && n > 0 {
+		p[0] ^= 0x01 // self-test of the binding only (VERIF_C07_CORRUPT=1): a reader that damages a byte
+	}
 	r.data = r.data[n:]
 	if len(r.data) == 0 && r.eofwd {
 		return n, io.EOF
@@ -173,6 +178,7 @@ type c07stats struct {
 	MisCount   int            `json:"mis_count"`
 	ByDev      map[string]int `json:"by_dev"`
 	Nontrivial int            `json:"nontrivial"` // runs whose reader was called more than twice
+	Sample     map[string]any `json:"sample,omitempty"`
 }
 
 func newStats() *c07stats { return &c07stats{ByDev: map[string]int{}, Mismatches: []mismatch{}} }
@@ -295,9 +301,15 @@ func runSched(src []byte, o popts, chunks []int, eofwd bool) presult {
 	return parseWith(src, o, &schedReader{data: src, chunks: append([]int(nil), chunks...), eofwd: eofwd})
 }
 
-func attribute(src []byte, o popts, s sched, ref presult, refChunks []int) []string {
-	// (a) only the EOF delivery differs?
-	if s.EOFWithData && sameResult(ref, runSched(src, o, s.Chunks, false)) {
+// onlyOffsetsDiffer: both parses succeeded and the trees are equal except for byte offsets.
+func onlyOffsetsDiffer(a, b presult) bool {
+	return a.err == "" && b.err == "" && a.pan == "" && b.pan == "" && a.file != nil && b.file != nil &&
+		DumpNoOffsets(a.file) == DumpNoOffsets(b.file)
+}
+
+func attribute(src []byte, o popts, s sched, ref, got presult, refChunks []int) []string {
+	// (a) only the EOF delivery differs, and only byte offsets are affected?
+	if s.EOFWithData && onlyOffsetsDiffer(ref, got) && sameResult(ref, runSched(src, o, s.Chunks, false)) {
 		return []string{"Dev_EOFWithDataFinalOffset"}
 	}
 	ivs := hotIntervals(src, o)
@@ -357,10 +369,13 @@ func runScheds(st *c07stats, src []byte, o popts, scheds []sched, tag string) {
 			st.Nontrivial++
 		}
 		if sameResult(ref, got) {
+			if st.Sample == nil && rd.reads > 3 && len(src) < 80 {
+				st.Sample = map[string]any{"src": hlib.Latin1(src), "opts": o, "sched": s, "reads": rd.reads, "result": describe(ref), "origin": tag}
+			}
 			continue
 		}
 		st.MisCount++
-		devs := attribute(src, o, s, ref, rr.chunks)
+		devs := attribute(src, o, s, ref, got, rr.chunks)
 		key := strings.Join(devs, "+")
 		st.ByDev[key]++
 		// keep a few samples per attribution class, everything unattributed (capped)
@@ -552,8 +567,9 @@ type chunkVec struct {
 	Mode   string    `json:"mode"`
 	Src    []string  `json:"src"`
 	Scheds [][][]any `json:"scheds"` // each schedule: [[n, eofFlag], ...] as emitted by TLC
-	Seed   int64     `json:"seed"`
-	Only   *struct {  // replay restriction
+	Seed     int64 `json:"seed"`
+	AllLangs bool  `json:"all_langs"`
+	Only     *struct {  // replay restriction
 		Template int `json:"template"`
 	} `json:"only"`
 }
@@ -637,9 +653,14 @@ func chunkVecEngine(raw json.RawMessage, args []string) (any, error) {
 		}
 		gen := genericScheds(len(prog), rng, 4, 64, nil)
 		tag := fmt.Sprintf("template %d %q+W+%q", ti, t.Pre, t.Post)
+		rot := (int(v.Seed) + ti) % len(t.Langs)
 		for li, l := range t.Langs {
+			if !v.AllLangs && li != 0 && li != rot {
+				// quick tier: the template's primary variant plus one rotating variant
+				continue
+			}
 			all := scheds
-			if li == (int(v.Seed)+ti)%len(t.Langs) {
+			if li == rot {
 				// the property's generic schedules: one (rotating) variant per template program
 				all = append(append([]sched(nil), scheds...), gen...)
 			}
